@@ -47,7 +47,8 @@ def generate(seed, run, tier):
     for j in range(ncl):
         clients.append({
             'yaml': W.SHIPPED[(run * 2 + j) % len(W.SHIPPED)] if r.random() < 0.7 else r.choice(W.SHIPPED),
-            'build': r.choice(['direct', 'make', 'spec_factory']),
+            'build': r.choice(['direct', 'make', 'spec_factory', 'varied_actions']),
+            'action_perm_seed': r.randrange(2**31),
             'wrapper': r.random() < 0.5,
             'state_repr': r.choice(REPRS),
             'env_seed': r.randrange(2**31),
@@ -135,7 +136,24 @@ class GymClient:
         self.actions = list(self.data.get('action_space', ACTIONS))
         gid = ids_by_file()[spec['yaml']]
         build = spec['build']
-        if build == 'direct':
+        if build == 'varied_actions':
+            # same configuration with its action list re-ordered / reduced: index i must still mean actions[i]
+            import random
+
+            from gym_gridverse.envs.yaml.factory import factory_env_from_data
+            from gym_gridverse.outer_env import OuterEnv
+
+            rr = random.Random(spec.get('action_perm_seed', 0))
+            acts = list(self.actions)
+            rr.shuffle(acts)
+            acts = acts[: rr.randint(2, len(acts))]
+            self.actions = acts
+            self.data = dict(self.data, action_space=acts)
+            import copy as _copy
+
+            inner = factory_env_from_data(_copy.deepcopy(self.data))
+            self.g = gg.GymEnvironment(OuterEnv(inner, observation_representation=make_observation_representation('default', inner.observation_space)))
+        elif build == 'direct':
             import os
 
             path = os.path.join(os.path.dirname(gg.__file__), 'registered_envs', spec['yaml'])
@@ -146,7 +164,13 @@ class GymClient:
             sp = gym.spec(gid)
             self.g = gg.from_factory(**sp.kwargs)
         self.inner = self.g.outer_env.inner_env
-        self.twin = factory_env_from_yaml(yaml_path(spec['yaml']))
+        if build == 'varied_actions':
+            from gym_gridverse.envs.yaml.factory import factory_env_from_data
+            import copy as _copy
+
+            self.twin = factory_env_from_data(_copy.deepcopy(self.data))
+        else:
+            self.twin = factory_env_from_yaml(yaml_path(spec['yaml']))
         self.mk_o = lambda name: make_observation_representation(name, self.twin.observation_space)
         self.mk_s = lambda name: make_state_representation(name, self.twin.state_space)
         self.orep_name, self.srep_name = 'default', None
@@ -359,7 +383,7 @@ def simplify(record):
             if len(r2['ops']) < len(record['ops']):
                 yield r2
     for i, c in enumerate(record['clients']):
-        if c['build'] != 'direct':
+        if c['build'] not in ('direct', 'varied_actions'):
             r2 = copy.deepcopy(record)
             r2['clients'][i]['build'] = 'direct'
             yield r2
